@@ -37,6 +37,12 @@ type Scenario struct {
 	Probe      bool             `json:"probe,omitempty"` // blrp: wait for an export triggered by the queue length
 }
 
+// DeadlineObs: the deadline a probe exporter was handed.
+type DeadlineObs struct {
+	Set      bool  `json:"set"`
+	RemainMs int64 `json:"remain_ms"`
+}
+
 // Result is what the child observed.
 type Result struct {
 	Infra    string     `json:"infra,omitempty"` // infrastructure failure (e.g. port bind): not a verdict
@@ -47,13 +53,15 @@ type Result struct {
 	ExportOK bool       `json:"export_ok,omitempty"`
 	Reqs     []Received `json:"reqs,omitempty"`
 
-	BSP       *BSPCfg `json:"bsp,omitempty"`
-	MaxBatch  int     `json:"max_batch,omitempty"`
-	Total     int     `json:"total,omitempty"`
-	Limits    []int64 `json:"limits,omitempty"`
-	EnvLimits []int64 `json:"env_limits,omitempty"`
-	Decisions []bool  `json:"decisions,omitempty"`
-	Triggered bool    `json:"triggered,omitempty"`
+	BSP       *BSPCfg      `json:"bsp,omitempty"`
+	MaxBatch  int          `json:"max_batch,omitempty"`
+	Total     int          `json:"total,omitempty"`
+	Limits    []int64      `json:"limits,omitempty"`
+	EnvLimits []int64      `json:"env_limits,omitempty"`
+	Decisions []bool       `json:"decisions,omitempty"`
+	Triggered bool         `json:"triggered,omitempty"`
+	Deadline  *DeadlineObs `json:"deadline,omitempty"` // context of the first non-empty export
+	Refused   int          `json:"refused,omitempty"`  // exports that found their context already done
 }
 
 const slowDelay = 600 * time.Millisecond
